@@ -232,6 +232,19 @@ def op_variants(fault_idx, nh):
     return v
 
 
+def no_usable_target_scenarios():
+    """put_record_to_peers whose every target is unusable (address-less unknown peer, the local node itself, an empty
+    list): the send phase has nobody to send to, so no quorum can be met - success would certify a record nobody was
+    sent (seeded C16f: quorum arithmetic of the send phase clamps to the number of targets, 0 >= 0)"""
+    S = []
+    for q in ("all", "n", "one"):
+        S.append(mk("no-usable-target-put_to-%s" % q, [dict(H), dict(H), fault("noaddr", learn=False)],
+                    [{"kind": "put_to", "quorum": q, "n": 2, "targets": [3]}]))
+    S.append(mk("empty-target-list-put_to-all", [dict(H), dict(H)], [{"kind": "put_to", "quorum": "all", "targets": []}]))
+    S.append(mk("own-id-target-put_to-n", [dict(H), dict(H)], [{"kind": "put_to", "quorum": "n", "n": 1, "targets": [0]}]))
+    return S
+
+
 def base_scenarios(ctx, pl, seed):
     """transport-agnostic scenario list (no ids)"""
     rnd = random.Random(seed)
@@ -257,6 +270,7 @@ def base_scenarios(ctx, pl, seed):
             S.append(mk("noaddr-put_to-%s" % q, [dict(H), dict(H), fault("noaddr", learn=False)],
                         [{"kind": "put_to", "quorum": q, "targets": [1, 3]}]))
         S.append(mk("undialable-put_to-all", [dict(H), dict(H), fault("undialable")], [{"kind": "put_to", "quorum": "all", "targets": [1, 3]}]))
+        S += no_usable_target_scenarios()
         S.append(mk("all-kinds-undialable", [dict(H), dict(H), dict(H), fault("undialable")],
                     [o for o in op_variants(4, 3) if o.get("quorum", "one") in ("one", "all")][:7]))
         S += limit_scenarios()
@@ -288,6 +302,7 @@ def base_scenarios(ctx, pl, seed):
                         [{"kind": "put_to", "quorum": q, "n": 2, "targets": [1, 2, 3]}]))
         S += limit_scenarios()
         S += inbound_scenarios()
+        S += no_usable_target_scenarios()
         S.append(mk("healthy-all-kinds", [dict(H), dict(H), dict(H), dict(H)], op_variants(4, 4)))
         # random placements: 1-3 fault nodes among 2-4 ordinary ones, 1-4 concurrent operations
         fast = [f for f in names if f not in ("silent", "silentput")]
